@@ -142,7 +142,7 @@ func (m *Metadata) Get(key string) ([]byte, bool) {
 func readField(r io.Reader) ([]byte, error) {
 	var lenb [4]byte
 
-	_, err := r.Read(lenb[:])
+	_, err := io.ReadFull(r, lenb[:])
 	if err != nil {
 		return nil, err
 	}
@@ -150,7 +150,7 @@ func readField(r io.Reader) ([]byte, error) {
 	len := binary.BigEndian.Uint32(lenb[:])
 
 	fb := make([]byte, len)
-	_, err = r.Read(fb)
+	_, err = io.ReadFull(r, fb)
 	if err != nil {
 		return nil, err
 	}
